@@ -202,7 +202,8 @@ impl<RH: BuildHasher, FH: BuildHasher, GH: BuildHasher> TwoQueueCacheBuilder<RH,
         let recent = RawLRU::with_hasher(size, self.recent_hasher.unwrap()).unwrap();
         let freq = RawLRU::with_hasher(size, self.freq_hasher.unwrap()).unwrap();
 
-        let ghost = RawLRU::with_hasher(es, self.ghost_hasher.unwrap()).unwrap();
+        // a ghost size that floors to 0 is reported as an error, as in `with_2q_parameters`
+        let ghost = RawLRU::with_hasher(es, self.ghost_hasher.unwrap())?;
 
         Ok(TwoQueueCache {
             size,
